@@ -9,123 +9,63 @@ import (
 	"verif/internal/flow"
 )
 
-// c09Mqtt: R-C09-4.
+// c09Mqtt: R-C09-4. Sites = every call of a library limiter's acquire method in package mqttproxy,
+// in a method or in a closure; the limiter charged is followed to its construction through a
+// field of Limiter (stores anywhere in the package) or through single-definition locals (a closure
+// over the limiter it was built for); the verdict table is decided per enclosing function, and for
+// methods of Limiter that dispatch through a func-typed field holding such closures.
 func c09Mqtt(c *core.Ctx, lim *c09limiter, fns []*c09fn) {
 	c09Wrappers(c, lim, fns)
 
-	// role: the method of Limiter that charges the library limiters
-	var fa *flow.Func
-	if cands := funcsByRole(c, mq, func(g *flow.Func, fd *ast.FuncDecl) bool {
-		if fd.Recv == nil || c09recv(g) == nil || !strings.HasSuffix(c09recv(g).Type().String(), "/"+mq+".Limiter") {
-			return false
-		}
-		for _, call := range calls(fd.Body, false) {
-			if c09calleeIs(g, call, "(*"+c09lib+".RateLimiter).AcquirePermission", "(*"+c09lib+".RateLimiter).AcquireNPermission", "(*"+c09lib+".MultiRateLimiter).AcquirePermission") {
-				return true
-			}
-		}
-		return false
-	}); len(cands) == 1 {
-		fa = cands[0]
-		c.Count("functions_analysed", 1)
-	} else {
-		fa = fn(c, mq, "Limiter", "acquirePermission")
-	}
 	pkg := c.Prog.Pkg(mq)
-	if fa == nil || pkg == nil {
-		return
-	}
-	cons := fname(mq, "Limiter", fa.Node.(*ast.FuncDecl).Name.Name)
 	limiterT := namedType(c, mq, "Limiter")
-	if limiterT == nil {
+	if pkg == nil || limiterT == nil {
 		return
 	}
-	isLimiterField := func(v *types.Var) bool {
-		st, ok := limiterT.Underlying().(*types.Struct)
-		if !ok || v == nil {
-			return false
-		}
+	limiterFields := map[*types.Var]bool{}
+	if st, ok := limiterT.Underlying().(*types.Struct); ok {
 		for i := 0; i < st.NumFields(); i++ {
-			if st.Field(i) == v {
-				return true
-			}
+			limiterFields[st.Field(i)] = true
 		}
-		return false
 	}
-	params := map[types.Object]bool{}
-	for _, p := range c09params(fa) {
-		params[p] = true
-	}
-	// unit of a charge expression: "RequestRate" (constant 1 per packet) or "BytesRate" (the size parameter)
-	unit := func(e ast.Expr) string {
-		r := c09resolve(fa, e)
-		if c09constIs(fa, r, "1") {
-			return "RequestRate"
-		}
-		if id, ok := r.(*ast.Ident); ok && params[c09obj(fa, id)] {
-			return "BytesRate"
-		}
-		return "?" + fa.Render(r)
-	}
+	acqNames := []string{"(*" + c09lib + ".RateLimiter).AcquirePermission", "(*" + c09lib + ".RateLimiter).AcquireNPermission", "(*" + c09lib + ".MultiRateLimiter).AcquirePermission"}
 
-	type site struct {
-		call    *ast.CallExpr
-		field   *types.Var
-		recv    ast.Expr
-		charges []string
-		perm    types.Object
-		blankW  bool
-	}
-	pm := parentMap(fa.Body)
-	var sites []*site
-	for _, call := range calls(fa.Body, false) {
-		var charges []string
-		switch {
-		case c09calleeIs(fa, call, "(*"+c09lib+".RateLimiter).AcquirePermission"):
-			charges = []string{"RequestRate"}
-		case c09calleeIs(fa, call, "(*"+c09lib+".RateLimiter).AcquireNPermission"):
-			if len(call.Args) == 1 {
-				charges = []string{unit(call.Args[0])}
-			}
-		case c09calleeIs(fa, call, "(*"+c09lib+".MultiRateLimiter).AcquirePermission"):
-			if len(call.Args) == 1 {
-				if cl, ok := c09resolve(fa, call.Args[0]).(*ast.CompositeLit); ok {
-					for _, el := range cl.Elts {
-						charges = append(charges, unit(el))
-					}
-				} else {
-					charges = []string{"?" + fa.Render(call.Args[0])}
-				}
-			}
-		default:
-			continue
-		}
-		_, recvX := c09callee(fa, call)
-		if recvX == nil {
-			continue
-		}
-		s := &site{call: call, recv: recvX, charges: charges, field: c09fieldOf(fa, c09resolve(fa, recvX))}
-		if as, ok := pm[call].(*ast.AssignStmt); ok && len(as.Rhs) == 1 && len(as.Lhs) >= 2 {
-			if id, ok := as.Lhs[0].(*ast.Ident); ok && id.Name != "_" {
-				s.perm = c09obj(fa, id)
-			}
-			if id, ok := as.Lhs[1].(*ast.Ident); ok && id.Name == "_" {
-				s.blankW = true
-			}
-		}
-		sites = append(sites, s)
-	}
-	if !c.RequireCount("R-C09-4", "limiter acquire call sites in Limiter.acquirePermission", len(sites), 3) {
-		return
-	}
-
-	// --- configuration of each charged limiter
+	// --- configuration of a limiter: New/NewMulti(NewPolicy/NewMultiPolicy(timeout, period, rate(s)))
 	type cfgSite struct {
 		at      ast.Node
 		timeout bool // constant 0
 		rates   []string
 	}
-	configs := map[*types.Var][]cfgSite{}
+	parseCfg := func(fl *flow.Func, e ast.Expr, at ast.Node) cfgSite {
+		cs := cfgSite{at: at}
+		mk, _ := c09resolve(fl, e).(*ast.CallExpr)
+		if mk == nil || len(mk.Args) != 1 || !(calleeIs(fl, mk, c09lib+".New") || calleeIs(fl, mk, c09lib+".NewMulti")) {
+			cs.rates = []string{"?" + types.ExprString(e)}
+			return cs
+		}
+		pol, _ := c09resolve(fl, mk.Args[0]).(*ast.CallExpr)
+		if pol == nil || len(pol.Args) != 3 || !(calleeIs(fl, pol, c09lib+".NewPolicy") || calleeIs(fl, pol, c09lib+".NewMultiPolicy")) {
+			cs.rates = []string{"?" + types.ExprString(mk.Args[0])}
+			return cs
+		}
+		cs.timeout = c09constIs(fl, pol.Args[0], "0")
+		rate := func(e ast.Expr) string {
+			if v := c09fieldOf(fl, c09resolve(fl, e)); v != nil {
+				return v.Name()
+			}
+			return "?" + types.ExprString(e)
+		}
+		if cl, ok := c09resolve(fl, pol.Args[2]).(*ast.CompositeLit); ok {
+			for _, el := range cl.Elts {
+				cs.rates = append(cs.rates, rate(el))
+			}
+		} else {
+			cs.rates = []string{rate(pol.Args[2])}
+		}
+		return cs
+	}
+	fieldCfgs := map[*types.Var][]cfgSite{}
+	funcStores := map[*types.Var][]ast.Expr{} // values stored into func-typed fields of Limiter
 	for _, fd := range c09pkgFuncs(pkg) {
 		fl := flow.NewFunc(pkg, fd)
 		ast.Inspect(fd.Body, func(n ast.Node) bool {
@@ -135,63 +75,148 @@ func c09Mqtt(c *core.Ctx, lim *c09limiter, fns []*c09fn) {
 			}
 			for i, l := range as.Lhs {
 				fld := c09fieldOf(fl, l)
-				if !isLimiterField(fld) {
+				if !limiterFields[fld] {
 					continue
 				}
 				if tv, ok := fl.Info.Types[as.Rhs[i]]; ok && tv.IsNil() {
 					continue
 				}
-				cs := cfgSite{at: as}
-				mk, _ := c09resolve(fl, as.Rhs[i]).(*ast.CallExpr)
-				if mk == nil || len(mk.Args) != 1 || !(calleeIs(fl, mk, c09lib+".New") || calleeIs(fl, mk, c09lib+".NewMulti")) {
-					cs.rates = []string{"?" + fl.Render(as.Rhs[i])}
-					configs[fld] = append(configs[fld], cs)
+				if _, isFunc := fld.Type().Underlying().(*types.Signature); isFunc {
+					funcStores[fld] = append(funcStores[fld], c09resolve(fl, as.Rhs[i]))
 					continue
 				}
-				pol, _ := c09resolve(fl, mk.Args[0]).(*ast.CallExpr)
-				if pol == nil || len(pol.Args) != 3 || !(calleeIs(fl, pol, c09lib+".NewPolicy") || calleeIs(fl, pol, c09lib+".NewMultiPolicy")) {
-					cs.rates = []string{"?" + fl.Render(mk.Args[0])}
-					configs[fld] = append(configs[fld], cs)
-					continue
-				}
-				cs.timeout = c09constIs(fl, pol.Args[0], "0")
-				rate := func(e ast.Expr) string {
-					if v := c09fieldOf(fl, c09resolve(fl, e)); v != nil {
-						return v.Name()
-					}
-					return "?" + fl.Render(e)
-				}
-				if cl, ok := c09resolve(fl, pol.Args[2]).(*ast.CompositeLit); ok {
-					for _, el := range cl.Elts {
-						cs.rates = append(cs.rates, rate(el))
-					}
-				} else {
-					cs.rates = []string{rate(pol.Args[2])}
-				}
-				configs[fld] = append(configs[fld], cs)
+				fieldCfgs[fld] = append(fieldCfgs[fld], parseCfg(fl, as.Rhs[i], as))
 			}
 			return true
 		})
 	}
+
+	// --- sites
+	type site struct {
+		declName string
+		enc      *flow.Func // innermost enclosing function (declaration or literal)
+		encLit   *ast.FuncLit
+		call     *ast.CallExpr
+		recv     ast.Expr
+		label    string
+		cfgs     []cfgSite
+		charges  []string
+		perm     types.Object
+		blankW   bool
+	}
+	var sites []*site
+	byEnc := map[*ast.BlockStmt][]*site{}
+	var encOrder []*ast.BlockStmt
+	for _, fd := range c09pkgFuncs(pkg) {
+		declF := flow.NewFunc(pkg, fd)
+		var lits []*ast.FuncLit
+		ast.Inspect(fd.Body, func(n ast.Node) bool {
+			if l, ok := n.(*ast.FuncLit); ok {
+				lits = append(lits, l)
+			}
+			return true
+		})
+		pm := parentMap(fd.Body)
+		for _, call := range calls(fd.Body, true) {
+			if !c09calleeIs(declF, call, acqNames...) {
+				continue
+			}
+			_, recvX := c09callee(declF, call)
+			if recvX == nil {
+				continue
+			}
+			s := &site{declName: declName(pkg, fd), enc: declF, call: call, recv: recvX}
+			for _, l := range lits { // innermost literal containing the call
+				if contains(l, call) && (s.encLit == nil || contains(s.encLit, l)) {
+					s.encLit = l
+				}
+			}
+			if s.encLit != nil {
+				s.enc = declF.Lit(s.encLit)
+				s.declName += "$closure"
+			}
+			params := map[types.Object]bool{}
+			for _, p := range c09params(s.enc) {
+				params[p] = true
+			}
+			// unit of a charge: "RequestRate" (constant 1 per packet) or "BytesRate" (the size parameter)
+			unit := func(e ast.Expr) string {
+				r := c09resolve(s.enc, e)
+				if c09constIs(declF, r, "1") {
+					return "RequestRate"
+				}
+				if id, ok := r.(*ast.Ident); ok && params[c09obj(declF, id)] {
+					return "BytesRate"
+				}
+				return "?" + types.ExprString(r)
+			}
+			switch {
+			case c09calleeIs(declF, call, acqNames[0]):
+				s.charges = []string{"RequestRate"}
+			case c09calleeIs(declF, call, acqNames[1]):
+				if len(call.Args) == 1 {
+					s.charges = []string{unit(call.Args[0])}
+				}
+			default:
+				if len(call.Args) == 1 {
+					if cl, ok := c09resolve(s.enc, call.Args[0]).(*ast.CompositeLit); ok {
+						for _, el := range cl.Elts {
+							s.charges = append(s.charges, unit(el))
+						}
+					} else {
+						s.charges = []string{"?" + types.ExprString(call.Args[0])}
+					}
+				}
+			}
+			if as, ok := pm[call].(*ast.AssignStmt); ok && len(as.Rhs) == 1 && len(as.Lhs) >= 2 {
+				if id, ok := as.Lhs[0].(*ast.Ident); ok && id.Name != "_" {
+					s.perm = c09obj(declF, id)
+				}
+				if id, ok := as.Lhs[1].(*ast.Ident); ok && id.Name == "_" {
+					s.blankW = true
+				}
+			}
+			// the limiter that is charged: a field of Limiter, or a local holding the constructed limiter
+			src := c09resolve(declF, recvX)
+			switch fld := c09fieldOf(declF, src); {
+			case limiterFields[fld]:
+				s.label = fld.Name()
+				s.cfgs = fieldCfgs[fld]
+				if len(s.cfgs) == 0 {
+					c.Errorf("R-C09-4: anchor: no store to %s.Limiter.%s found", mq, fld.Name())
+					continue
+				}
+			default:
+				if mk, ok := src.(*ast.CallExpr); ok && (calleeIs(declF, mk, c09lib+".New") || calleeIs(declF, mk, c09lib+".NewMulti")) {
+					s.label = types.ExprString(recvX) + " (" + strings.Join(s.charges, "+") + ")"
+					s.cfgs = []cfgSite{parseCfg(declF, src, mk)}
+				} else {
+					c.Undecide("R-C09-4", s.declName+"|charged limiter is identified", pos(c, call), "cannot follow the charged limiter "+types.ExprString(recvX)+" to a field of Limiter or to its construction")
+					continue
+				}
+			}
+			sites = append(sites, s)
+			key := s.enc.Body
+			if _, seen := byEnc[key]; !seen {
+				encOrder = append(encOrder, key)
+			}
+			byEnc[key] = append(byEnc[key], s)
+		}
+	}
+	if !c.RequireCount("R-C09-4", "limiter acquire call sites in "+mq, len(sites), 3) {
+		return
+	}
+
+	// --- unit and timeout of each charged limiter
 	for _, s := range sites {
-		if s.field == nil || !isLimiterField(s.field) {
-			c.Undecide("R-C09-4", cons+"|charged limiter is a field of Limiter", pos(c, s.call), "cannot identify the limiter that is charged")
-			continue
-		}
-		name := s.field.Name()
-		cfgs := configs[s.field]
-		if len(cfgs) == 0 {
-			c.Errorf("R-C09-4: anchor: no store to %s.Limiter.%s found", mq, name)
-			continue
-		}
 		for _, ch := range s.charges {
 			if strings.HasPrefix(ch, "?") {
-				c.Undecide("R-C09-4", cons+"|"+name+" charge matches configured rate", pos(c, s.call), "cannot classify the charge "+ch[1:]+" (neither the constant 1 nor the size parameter)")
+				c.Undecide("R-C09-4", s.declName+"|"+s.label+" charge matches configured rate", pos(c, s.call), "cannot classify the charge "+ch[1:]+" (neither the constant 1 nor the size parameter)")
 			}
 		}
 		okRate, okTimeout := true, true
 		var badRate, badTimeout cfgSite
-		for _, cs := range cfgs {
+		for _, cs := range s.cfgs {
 			if strings.Join(cs.rates, ",") != strings.Join(s.charges, ",") {
 				okRate, badRate = false, cs
 			}
@@ -199,110 +224,239 @@ func c09Mqtt(c *core.Ctx, lim *c09limiter, fns []*c09fn) {
 				okTimeout, badTimeout = false, cs
 			}
 		}
-		c.Check(okRate, "R-C09-4", cons+"|"+name+" charge matches configured rate", pos(c, s.call),
+		c.Check(okRate, "R-C09-4", s.declName+"|"+s.label+" charge matches configured rate", pos(c, s.call),
 			sprintf("charged %v per packet, configured with %v", s.charges, s.charges),
-			sprintf("the limiter %s is charged in units %v but configured with the rates %v (%s): packets are counted against the byte budget or bytes against the packet budget", name, s.charges, badRate.rates, pos(c, badRate.at)))
+			sprintf("the limiter %s is charged in units %v but configured with the rates %v (%s): packets are counted against the byte budget or bytes against the packet budget", s.label, s.charges, badRate.rates, pos(c, badRate.at)))
 		if !s.blankW {
-			c.Undecide("R-C09-4", cons+"|"+name+" timeout 0", pos(c, s.call), "the wait returned by the limiter is no longer discarded; the timeout-0 rule needs review")
+			c.Undecide("R-C09-4", s.declName+"|"+s.label+" timeout 0", pos(c, s.call), "the wait returned by the limiter is no longer discarded; the timeout-0 rule needs review")
 			continue
 		}
-		c.Check(okTimeout, "R-C09-4", cons+"|"+name+" timeout 0", pos(c, s.call),
+		c.Check(okTimeout, "R-C09-4", s.declName+"|"+s.label+" timeout 0", pos(c, s.call),
 			"the wait is discarded and every policy of this limiter has the constant timeout 0 (no reservation of future periods)",
-			sprintf("the limiter %s is built with a non-zero timeout (%s) while acquirePermission discards the imposed wait: packets reserved for future periods are let through immediately, more than the configured rate per period", name, pos(c, badTimeout.at)))
+			sprintf("the limiter %s is built with a non-zero timeout (%s) while the imposed wait is discarded: packets reserved for future periods are let through immediately, more than the configured rate per period", s.label, pos(c, badTimeout.at)))
 	}
 
-	// --- decision table of Limiter.acquirePermission
-	idx := map[*ast.CallExpr]int{}
-	for i, s := range sites {
-		idx[s.call] = i
-	}
-	named := c09resultsOf(fa)
-	res := analyze(c, fa, flow.Config{
-		NoHavoc: true,
-		OnNode: func(st *flow.State, n ast.Node) {
-			named.onNode(st, n)
-			// a later assignment to the variable holding a limiter's verdict replaces the verdict
-			if as, ok := n.(*ast.AssignStmt); ok {
-				fromSite := false
-				for _, r := range as.Rhs {
-					if call, ok := ast.Unparen(r).(*ast.CallExpr); ok {
-						if _, isSite := idx[call]; isSite {
-							fromSite = true
+	// --- decision table of every function that charges limiters
+	chargingLit := map[*ast.FuncLit]bool{}
+	for _, key := range encOrder {
+		ss := byEnc[key]
+		fa := ss[0].enc
+		if ss[0].encLit != nil {
+			chargingLit[ss[0].encLit] = true
+		}
+		c.Count("functions_analysed", 1)
+		idx := map[*ast.CallExpr]int{}
+		for i, s := range ss {
+			idx[s.call] = i
+		}
+		named := c09resultsOf(fa)
+		res := analyze(c, fa, flow.Config{
+			NoHavoc: true,
+			OnNode: func(st *flow.State, n ast.Node) {
+				named.onNode(st, n)
+				// a later assignment to the variable holding a limiter's verdict replaces the verdict
+				if as, ok := n.(*ast.AssignStmt); ok {
+					fromSite := false
+					for _, r := range as.Rhs {
+						if call, ok := ast.Unparen(r).(*ast.CallExpr); ok {
+							if _, isSite := idx[call]; isSite {
+								fromSite = true
+							}
+						}
+					}
+					for _, l := range as.Lhs {
+						id, ok := ast.Unparen(l).(*ast.Ident)
+						if !ok {
+							continue
+						}
+						for _, s := range ss {
+							if s.perm != nil && c09obj(fa, id) == s.perm {
+								st.Set("ev:overwritten", c09val(!fromSite))
+							}
 						}
 					}
 				}
-				for _, l := range as.Lhs {
-					id, ok := ast.Unparen(l).(*ast.Ident)
-					if !ok {
-						continue
+			},
+			OnCall: func(st *flow.State, call *ast.CallExpr, callee types.Object, deferred bool) {
+				if i, ok := idx[call]; ok {
+					st.Set(sprintf("ev:acq:%d", i), flow.True)
+				}
+			},
+		})
+		if res == nil {
+			continue
+		}
+		var bad *flow.Exit
+		why := ""
+		exits := 0
+		for _, ex := range res.Exits {
+			if ex.Kind != flow.ExitReturn {
+				continue
+			}
+			r := named.expr(ex, 0)
+			if r == nil {
+				continue
+			}
+			exits++
+			var charged []*site
+			for i, s := range ss {
+				if ex.State.Is(sprintf("ev:acq:%d", i), flow.True) {
+					charged = append(charged, s)
+				}
+			}
+			switch len(charged) {
+			case 0:
+				if v, known := named.constant(ex, 0); !known || v.ExactString() != "true" {
+					bad, why = ex, "no limiter was charged but the result is not the constant true"
+				}
+				for _, s := range ss {
+					if !ex.State.Is(fa.NilKey(s.recv), flow.True) {
+						bad, why = ex, "a packet is admitted without charging the limiter "+types.ExprString(s.recv)+" although that limiter is not known to be unconfigured (nil): the configured rate is not enforced"
 					}
-					for _, s := range sites {
-						if s.perm != nil && c09obj(fa, id) == s.perm {
-							st.Set("ev:overwritten", c09val(!fromSite))
+				}
+			case 1:
+				id, ok := r.(*ast.Ident)
+				if !ok || charged[0].perm == nil || c09obj(fa, id) != charged[0].perm || ex.State.Is("ev:overwritten", flow.True) {
+					bad, why = ex, "the result is not the verdict of the limiter that was charged ("+types.ExprString(charged[0].recv)+"): rejected packets are admitted (or admitted ones dropped)"
+				}
+			default:
+				bad, why = ex, "more than one limiter is charged for one packet"
+			}
+			if bad != nil {
+				break
+			}
+		}
+		var w []string
+		if bad != nil {
+			w = append([]string{"exit at " + pos(c, bad.At)}, witness(bad.State)...)
+		}
+		if exits == 0 {
+			c.Errorf("R-C09-4: no exits of %s analysed", ss[0].declName)
+			continue
+		}
+		c.Check(bad == nil, "R-C09-4", ss[0].declName+"|result is the charged limiter's verdict", pos(c, fa.Body),
+			sprintf("%d exit(s): the charged limiter's verdict is returned; true only when every limiter is nil", exits), why, w...)
+	}
+
+	// --- methods of Limiter that dispatch through a func-typed field holding charging closures
+	for _, fd := range c09pkgFuncs(pkg) {
+		g := flow.NewFunc(pkg, fd)
+		rv := c09recv(g)
+		if rv == nil || !c09isPtrTo(rv.Type(), mq, "Limiter") {
+			continue
+		}
+		var dyn []*ast.CallExpr
+		var dynField *types.Var
+		for _, call := range calls(fd.Body, false) {
+			fld := c09fieldOf(g, c09resolve(g, call.Fun))
+			if fld == nil || !limiterFields[fld] {
+				continue
+			}
+			if _, isFunc := fld.Type().Underlying().(*types.Signature); isFunc {
+				dyn = append(dyn, call)
+				dynField = fld
+			}
+		}
+		if len(dyn) == 0 {
+			continue
+		}
+		cons := declName(pkg, fd) + "|result is the charged limiter's verdict"
+		if len(dyn) != 1 {
+			c.Undecide("R-C09-4", cons, pos(c, dyn[1]), "more than one dispatch through a limiter closure")
+			continue
+		}
+		d := dyn[0]
+		undecided := ""
+		for _, v := range funcStores[dynField] {
+			if lit, ok := v.(*ast.FuncLit); !ok || !chargingLit[lit] {
+				undecided = "a value stored into Limiter." + dynField.Name() + " is not a closure that charges a library limiter"
+			}
+		}
+		if len(funcStores[dynField]) == 0 {
+			undecided = "no closure is ever stored into Limiter." + dynField.Name()
+		}
+		params := map[types.Object]bool{}
+		for _, p := range c09params(g) {
+			params[p] = true
+		}
+		for _, a := range d.Args {
+			if id, ok := c09resolve(g, a).(*ast.Ident); !ok || !params[c09obj(g, id)] {
+				undecided = "the size handed to the limiter closure is not the method's parameter"
+			}
+		}
+		if undecided != "" {
+			c.Undecide("R-C09-4", cons, pos(c, d), undecided)
+			continue
+		}
+		c.Count("functions_analysed", 1)
+		pm := parentMap(fd.Body)
+		var perm types.Object
+		if as, ok := pm[d].(*ast.AssignStmt); ok && len(as.Lhs) == 1 && len(as.Rhs) == 1 {
+			if id, ok := as.Lhs[0].(*ast.Ident); ok {
+				perm = c09obj(g, id)
+			}
+		}
+		named := c09resultsOf(g)
+		res := analyze(c, g, flow.Config{
+			NoHavoc: true,
+			OnNode: func(st *flow.State, n ast.Node) {
+				named.onNode(st, n)
+				if as, ok := n.(*ast.AssignStmt); ok && perm != nil {
+					for i, l := range as.Lhs {
+						if id, ok := ast.Unparen(l).(*ast.Ident); ok && c09obj(g, id) == perm {
+							st.Set("ev:overwritten", c09val(!(len(as.Rhs) == len(as.Lhs) && ast.Unparen(as.Rhs[i]) == ast.Expr(d))))
 						}
 					}
 				}
-			}
-		},
-		OnCall: func(st *flow.State, call *ast.CallExpr, callee types.Object, deferred bool) {
-			if i, ok := idx[call]; ok {
-				st.Set(sprintf("ev:acq:%d", i), flow.True)
-			}
-		},
-	})
-	if res == nil {
-		return
-	}
-	var bad *flow.Exit
-	why := ""
-	exits := 0
-	for _, ex := range res.Exits {
-		if ex.Kind != flow.ExitReturn {
+			},
+			OnCall: func(st *flow.State, call *ast.CallExpr, callee types.Object, deferred bool) {
+				if call == d {
+					st.Set("ev:dispatched", flow.True)
+				}
+			},
+		})
+		if res == nil {
 			continue
 		}
-		r := named.expr(ex, 0)
-		if r == nil {
-			continue
-		}
-		exits++
-		var charged []*site
-		for i, s := range sites {
-			if ex.State.Is(sprintf("ev:acq:%d", i), flow.True) {
-				charged = append(charged, s)
+		var bad *flow.Exit
+		why := ""
+		exits := 0
+		for _, ex := range res.Exits {
+			if ex.Kind != flow.ExitReturn || bad != nil {
+				continue
 			}
-		}
-		switch len(charged) {
-		case 0:
+			r := named.expr(ex, 0)
+			if r == nil {
+				continue
+			}
+			exits++
+			if ex.State.Is("ev:dispatched", flow.True) {
+				id, isID := r.(*ast.Ident)
+				switch {
+				case r == ast.Expr(d):
+				case isID && perm != nil && c09obj(g, id) == perm && !ex.State.Is("ev:overwritten", flow.True):
+				default:
+					bad, why = ex, "the result is not the verdict of the limiter closure that was called: rejected packets are admitted (or admitted ones dropped)"
+				}
+				continue
+			}
 			if v, known := named.constant(ex, 0); !known || v.ExactString() != "true" {
 				bad, why = ex, "no limiter was charged but the result is not the constant true"
+			} else if !ex.State.Is(g.NilKey(d.Fun), flow.True) {
+				bad, why = ex, "a packet is admitted without calling the limiter closure "+types.ExprString(d.Fun)+" although it is not known to be unset (nil): the configured rate is not enforced"
 			}
-			for _, s := range sites {
-				if !ex.State.Is(fa.NilKey(s.recv), flow.True) {
-					bad, why = ex, "a packet is admitted without charging the limiter "+types.ExprString(s.recv)+" although that limiter is not known to be unconfigured (nil): the configured rate is not enforced"
-				}
-			}
-		case 1:
-			id, ok := r.(*ast.Ident)
-			if !ok || charged[0].perm == nil || c09obj(fa, id) != charged[0].perm || ex.State.Is("ev:overwritten", flow.True) {
-				bad, why = ex, "the result is not the verdict of the limiter that was charged ("+types.ExprString(charged[0].recv)+"): rejected packets are admitted (or admitted ones dropped)"
-			}
-		default:
-			bad, why = ex, "more than one limiter is charged for one packet"
 		}
+		var w []string
 		if bad != nil {
-			break
+			w = append([]string{"exit at " + pos(c, bad.At)}, witness(bad.State)...)
 		}
+		if exits == 0 {
+			c.Errorf("R-C09-4: no exits of %s analysed", declName(pkg, fd))
+			continue
+		}
+		c.Check(bad == nil, "R-C09-4", cons, pos(c, d),
+			sprintf("%d exit(s): the verdict of the limiter closure is returned; true only when no closure is set", exits), why, w...)
 	}
-	var w []string
-	if bad != nil {
-		w = append([]string{"exit at " + pos(c, bad.At)}, witness(bad.State)...)
-	}
-	if exits == 0 {
-		c.Errorf("R-C09-4: no exits of %s analysed", cons)
-		return
-	}
-	c.Check(bad == nil, "R-C09-4", cons+"|result is the charged limiter's verdict", pos(c, fa.Body),
-		sprintf("%d exit(s): the charged limiter's verdict is returned; true only when every limiter is nil", exits), why, w...)
 }
 
 // c09Wrappers: RateLimiter.AcquirePermission charges 1, AcquireNPermission(n) charges n —
